@@ -674,9 +674,11 @@ ElemNumber::getPreviousNode(
 
             if(0 == next)
             {
-                next = pos->getParentNode();
+                // An attribute node has no parent node in the DOM sense,
+                // so use its owner element.
+                next = DOMServices::getParentOfNode(*pos);
 
-                if(0 != next &&
+                if(0 == next ||
                    next->getNodeType() == XalanNode::DOCUMENT_NODE ||
                    (0 != fromMatchPattern &&
                         fromMatchPattern->getMatchScore(
